@@ -134,12 +134,12 @@ func judge(level string, d Decl, q Req, e expect, o obs) (string, string) {
 		}
 		if !e.R422 {
 			switch {
-			case headerDeclaredNonCanonical(d, q, o):
-				return "not-bound/header-declared-noncanonical", what
 			case et == "string" && namedStringFormats[ef] && strings.Contains(o.Message, "must be of type string"):
 				return "rejected-valid/string-format-with-named-go-string-type", what
 			case et == "string" && ef == "byte" && strings.ContainsAny(lastText(d, q), "+/") && strings.Contains(o.Message, "must be of type byte"):
 				return "rejected-valid/byte-in-standard-base64-alphabet", what
+			case headerDeclaredNonCanonical(d, q, o):
+				return "not-bound/header-declared-noncanonical", what
 			}
 			return "rejected-valid", what
 		}
